@@ -104,11 +104,11 @@ def run(ctx):
     ctx.count("return_paths", n_ret)
     ctx.floor("return paths of public parsers", n_ret, 12)
     ctx.samples = samples[:14]
-    _entries(ctx, index, funcs)
-    _names(ctx, index)
-    _key_provenance(ctx, index, funcs)
-    _fields(ctx, index)
-    _receiver(ctx, index)
+    ctx.section(_entries, ctx, index, funcs)
+    ctx.section(_names, ctx, index)
+    ctx.section(_key_provenance, ctx, index, funcs)
+    ctx.section(_fields, ctx, index)
+    ctx.section(_receiver, ctx, index)
 
 
 def _entries(ctx, index, funcs):
